@@ -64,11 +64,35 @@ func c17FailoverRemapsTheFailedLeg(p *core.Program, r *core.Report) {
 					return true
 				}
 				nIn++
-				ok := false
-				if sel, isSel := ast.Unparen(x.Args[idx]).(*ast.SelectorExpr); isSel && sel.Sel.Name == "shards" {
-					if nmd := core.NamedOf(info.TypeOf(sel.X)); nmd != nil && nmd.Obj().Name() == "mapResponse" {
-						ok = true
+				isRespShards := func(e ast.Expr) bool {
+					sel, isSel := ast.Unparen(e).(*ast.SelectorExpr)
+					if !isSel || sel.Sel.Name != "shards" {
+						return false
 					}
+					nmd := core.NamedOf(info.TypeOf(sel.X))
+					return nmd != nil && nmd.Obj().Name() == "mapResponse"
+				}
+				ok := isRespShards(x.Args[idx])
+				if id, isID := ast.Unparen(x.Args[idx]).(*ast.Ident); isID && !ok {
+					// a local whose every assignment is <response>.shards
+					o := info.ObjectOf(id)
+					nAs, all := 0, true
+					ast.Inspect(fd.Body, func(k ast.Node) bool {
+						as, isAs := k.(*ast.AssignStmt)
+						if !isAs || len(as.Lhs) != len(as.Rhs) {
+							return true
+						}
+						for i, l := range as.Lhs {
+							if lid, isL := l.(*ast.Ident); isL && info.ObjectOf(lid) == o {
+								nAs++
+								if !isRespShards(as.Rhs[i]) {
+									all = false
+								}
+							}
+						}
+						return true
+					})
+					ok = nAs > 0 && all
 				}
 				r.Check(ok, "R7", "(*executor).mapReduce: fail-over maps the failed leg's shards", p.Pos(x.Pos()),
 					"the re-mapping inside the response loop passes <response>.shards",
